@@ -5,6 +5,14 @@ PROP = "C19"
 THEOREMS = [tuple(x) for x in json.load(open(os.path.join(VERIF, "lib", "pins", PROP + ".json")))]
 
 
+def console_counts(run, har, tier="quick", seed=1):
+    """the running count the tty console prints is the number of commands on display (started, not finished), whatever the steps'
+    `hide_success` / outcome: the real FancyState against Model/Fancy.v and an independent monitor of every status line"""
+    import c20
+    run.coverage["fancy_console_counts"] = c20.fancy_leg(run, random.Random(seed + 19), tier, har, build_driver())
+
+
 def main(tier, seed, replay=None):
+    probes = (lambda run, har: console_counts(run, har, tier, seed))
     return sched_check(PROP, THEOREMS, tier, seed, [monitor_c19], extra_modules=["Model.All", "Proofs.SchedSpec", "Proofs.SchedInv", "Proofs.SchedLive", "Proofs.SchedRunThms"],
-                       replay=replay, scen_gen=gen_sched_or_regen)
+                       replay=replay, scen_gen=gen_sched_or_regen, probes=probes)
